@@ -5,6 +5,7 @@ package main
 import (
 	"context"
 	"fmt"
+	"net"
 	"runtime/debug"
 	"strings"
 	"time"
@@ -15,22 +16,205 @@ import (
 	"github.com/datastax/go-cassandra-native-protocol/primitive"
 )
 
+// runConnectAndInit: CqlClient.ConnectAndInit whose handshake fails although the TCP connection is
+// healthy. Whatever the caller gets back is closed by the caller; afterwards nothing of that client may
+// be left: no client-package goroutine, and the peer must see the socket closed.
+func runConnectAndInit(sp *caseSpec, res *caseResult) {
+	s := &sess{sp: sp, res: res}
+	cause := strings.TrimPrefix(sp.Name, "ConnectAndInit-failed/")
+	s.cliCtx, s.cliCancel = context.WithCancel(context.Background())
+	s.srvCtx, s.srvCancel = context.WithCancel(context.Background())
+	defer s.cliCancel()
+	defer s.srvCancel()
+	ver := primitive.ProtocolVersion4
+	var addr string
+	peerClosed := make(chan bool, 1) // raw peer: true = the socket was seen closed (EOF / reset), false = still open at the limit
+	var srv *client.CqlServer
+	var lis net.Listener
+	if cause == "unexpected-authenticate-libserver" {
+		srv = client.NewCqlServer("127.0.0.1:0", &client.AuthCredentials{Username: "u", Password: "p"})
+		srv.RequestHandlers = []client.RequestHandler{client.HandshakeHandler}
+		if err := srv.Start(s.srvCtx); err != nil {
+			res.Inc = append(res.Inc, "set-up failed: "+trimAddr(err.Error()))
+			return
+		}
+		addr = srv.VerifAddr().String()
+	} else {
+		l, err := net.Listen("tcp", "127.0.0.1:0")
+		if err != nil {
+			res.Inc = append(res.Inc, "set-up failed: "+trimAddr(err.Error()))
+			return
+		}
+		lis = l
+		addr = l.Addr().String()
+		go func() {
+			c, err := l.Accept()
+			if err != nil {
+				peerClosed <- true
+				return
+			}
+			p := newRawPeer(c)
+			defer p.close()
+			if f, err := p.read(stepLimit); err == nil {
+				switch cause {
+				case "unexpected-authenticate":
+					_ = p.write(frame.NewFrame(f.Header.Version, f.Header.StreamId, &message.Authenticate{Authenticator: "org.apache.cassandra.auth.PasswordAuthenticator"}))
+				case "error-response":
+					_ = p.write(frame.NewFrame(f.Header.Version, f.Header.StreamId, &message.Invalid{ErrorMessage: "verif: not now"}))
+				}
+			}
+			// from now on the peer only watches the socket: it must be closed by the other side
+			buf := make([]byte, 256)
+			deadline := time.Now().Add(closeLimit)
+			for {
+				_ = c.SetReadDeadline(deadline)
+				if _, err := c.Read(buf); err != nil {
+					ne, ok := err.(net.Error)
+					peerClosed <- !(ok && ne.Timeout())
+					return
+				}
+			}
+		}()
+	}
+	cl := client.NewCqlClient(addr, nil)
+	cl.ReadTimeout = readTimeout
+	if cause == "no-answer" {
+		cl.ReadTimeout = shortTimeout
+	}
+	var conn *client.CqlClientConnection
+	w := watch("ConnectAndInit", func() error {
+		var e error
+		conn, e = cl.ConnectAndInit(s.cliCtx, ver, client.ManagedStreamId)
+		return e
+	})
+	cleanup := func() {
+		s.cliCancel()
+		s.srvCancel()
+		if lis != nil {
+			lis.Close()
+		}
+		if srv != nil {
+			_ = srv.Close()
+		}
+	}
+	if !waitUntil(10*cl.ReadTimeout+settle, w.returned) {
+		res.Inc = append(res.Inc, "ConnectAndInit did not return within the limit")
+		res.Abandon = true
+		cleanup()
+		return
+	}
+	if w.panicked {
+		s.viol("panic-"+panicSlug(w.panicVal), map[string]interface{}{"panic": w.panicVal, "stack": w.stack})
+		res.Abandon = true
+		cleanup()
+		return
+	}
+	if w.err == nil {
+		res.Inc = append(res.Inc, "fault point not reached: the handshake unexpectedly succeeded")
+		if conn != nil {
+			_ = conn.Close()
+		}
+		cleanup()
+		return
+	}
+	s.faultNote = "ConnectAndInit: " + trimAddr(w.err.Error())
+	// the caller closes what it was given
+	if conn != nil {
+		res.count("ConnectAndInit_returned_connection_with_error", 1)
+		cw := watch("client.Close", func() error { return conn.Close() })
+		s.calls = append(s.calls, cw)
+		if !waitUntil(settle, cw.returned) {
+			if !s.deadlockVerdict(cw) {
+				s.inconclusive("client.Close slow")
+			}
+		}
+	} else {
+		res.count("ConnectAndInit_returned_nil_with_error", 1)
+	}
+	// nothing of THAT CLIENT may be left (the library server's own goroutines are not the client's)
+	ofClient := func() []gor {
+		var out []gor
+		for _, g := range clientGoroutines() {
+			if strings.Contains(g.Stack, "CqlClientConnection)") || strings.Contains(g.Stack, "inFlightRequest)") {
+				out = append(out, g)
+			}
+		}
+		return out
+	}
+	leaked := false
+	if !waitUntil(settle, func() bool { return len(ofClient()) == 0 }) {
+		if st, _ := stable(time.Second); st {
+			leaked = true
+			tops := map[string]bool{}
+			gs := ofClient()
+			for _, g := range gs {
+				tops[funcSuffix.ReplaceAllString(g.Top, "")] = true
+			}
+			for t := range tops {
+				s.viol("goroutine-leak/"+t, map[string]interface{}{"returned_connection_nil": conn == nil, "goroutines": excerpt(gs)})
+			}
+		} else {
+			s.inconclusive("ConnectAndInit: client goroutines still running")
+		}
+	}
+	// the peer must see the socket closed
+	if srv != nil {
+		if !waitUntil(settle, func() bool { cs, err := srv.AllAcceptedClients(); return err == nil && len(cs) == 0 }) {
+			if st, gs := stable(time.Second); st {
+				s.viol("socket-left-open", map[string]interface{}{"returned_connection_nil": conn == nil, "goroutines": excerpt(gs)})
+			} else {
+				s.inconclusive("ConnectAndInit: server connection state not stable")
+			}
+		}
+	} else {
+		select {
+		case closed := <-peerClosed:
+			if !closed {
+				s.viol("socket-left-open", map[string]interface{}{"returned_connection_nil": conn == nil, "waited_s": closeLimit.Seconds()})
+			}
+		case <-time.After(settle):
+			if leaked {
+				s.viol("socket-left-open", map[string]interface{}{"returned_connection_nil": conn == nil, "note": "the connection's goroutines are still alive and blocked; the peer has not seen EOF"})
+			} else if st, _ := stable(time.Second); st {
+				s.viol("socket-left-open", map[string]interface{}{"returned_connection_nil": conn == nil})
+			} else {
+				s.inconclusive("ConnectAndInit: peer did not see the socket closed within the settle bound")
+			}
+		}
+	}
+	cleanup()
+	// after the contexts were cancelled everything must go away (otherwise the worker is not reusable)
+	if !waitUntil(settle, func() bool { return len(clientGoroutines()) == 0 }) {
+		res.Abandon = true
+	}
+	res.Evals = 1
+	res.Sigs = append(res.Sigs, sp.signature())
+	res.count("special_cases", 1)
+}
+
 func runSpecial(sp *caseSpec, res *caseResult) {
+	if strings.HasPrefix(sp.Name, "ConnectAndInit-failed/") {
+		runConnectAndInit(sp, res)
+		return
+	}
 	s := &sess{sp: sp, res: res}
 	switch sp.Name {
-	case "server.Close/unaccepted-holder", "server.Close/accept-blocked":
+	case "server.Close/unaccepted-holder", "server.Close/accept-blocked", "server.ctx/accept-blocked":
 		// Two servers. The client is connected to server B; Accept(client) is asked of server A, which
 		// never sees that client: the holder registered by Accept stays without a connection.
 		s.cliCtx, s.cliCancel = context.WithCancel(context.Background())
 		s.srvCtx, s.srvCancel = context.WithCancel(context.Background())
 		a := client.NewCqlServer("127.0.0.1:0", nil)
 		b := client.NewCqlServer("127.0.0.1:0", nil)
-		blocked := sp.Name == "server.Close/accept-blocked"
+		blocked := strings.HasSuffix(sp.Name, "/accept-blocked")
+		byCtx := strings.HasPrefix(sp.Name, "server.ctx/")
 		a.AcceptTimeout = 30 * time.Millisecond
 		if blocked {
-			a.AcceptTimeout = 8 * time.Second
+			a.AcceptTimeout = 60 * time.Second // the library's default: a blocked Accept must not need it to return
 		}
-		if err := a.Start(s.srvCtx); err != nil {
+		aCtx, aCancel := context.WithCancel(s.srvCtx)
+		defer aCancel()
+		if err := a.Start(aCtx); err != nil {
 			res.Inc = append(res.Inc, "set-up failed: "+trimAddr(err.Error()))
 			return
 		}
@@ -49,12 +233,14 @@ func runSpecial(sp *caseSpec, res *caseResult) {
 		}
 		s.cc = cc
 		var acc *callWatch
+		confirmed, skipB := false, false
 		if blocked {
 			acc = watch("server.Accept", func() error { _, err := a.Accept(cc); return err })
 			s.recvs = append(s.recvs, acc)
-			waitUntil(200*time.Millisecond, func() bool {
+			// confirmed blocked: the goroutine is inside Accept, parked in its select (holder registered)
+			confirmed = waitUntil(2*time.Second, func() bool {
 				for _, g := range clientGoroutines() {
-					if g.Harness && strings.Contains(g.Stack, "CqlServer).Accept") && blockedState(g.State) {
+					if g.Harness && strings.Contains(g.Stack, "CqlServer).Accept") && g.State == "select" {
 						return true
 					}
 				}
@@ -65,8 +251,14 @@ func runSpecial(sp *caseSpec, res *caseResult) {
 				res.Inc = append(res.Inc, "Accept of a foreign client unexpectedly succeeded")
 			}
 		}
-		// the fault: close server A
-		w := watch("server.Close", func() error { return a.Close() })
+		// the fault: close server A, or cancel its context
+		var w *callWatch
+		if byCtx {
+			aCancel()
+			w = watch("server.ctx", func() error { waitUntil(settle, a.IsClosed); return nil })
+		} else {
+			w = watch("server.Close", func() error { return a.Close() })
+		}
 		s.calls = append(s.calls, w)
 		if !waitUntil(settle, w.returned) {
 			if !s.deadlockVerdict(w) {
@@ -77,29 +269,45 @@ func runSpecial(sp *caseSpec, res *caseResult) {
 			s.viol("panic-"+panicSlug(w.panicVal), map[string]interface{}{"panic": w.panicVal, "stack": w.stack})
 			res.Abandon = true // connectionsLock of server A stays locked; its awaitDone goroutine needs the context
 		}
-		if acc != nil {
-			// Accept has a timeout of its own: "blocked for ever" can only be said after it. (An Accept that
-			// registers its holder after the handler was closed, or whose holder channel is not closed because
-			// Close panicked, returns with a timeout error after AcceptTimeout: late, but it returns.)
-			if waitUntil(settle, acc.returned) {
+		if acc != nil && !(w.returned() && w.panicked) {
+			// A goroutine that was blocked inside Accept when the server was closed must return because of the
+			// close, not because its AcceptTimeout (60 s) expires much later. If it was NOT observed blocked before
+			// the fault (it may then register its holder after the handler was closed) nothing is judged.
+			switch {
+			case waitUntil(settle, acc.returned):
 				res.count("accept_returned_on_close", 1)
-			} else if waitUntil(a.AcceptTimeout, acc.returned) {
-				res.count("accept_returned_by_its_timeout", 1)
-			} else {
+				if acc.err == nil {
+					s.viol("blocked-accept-returned-without-error", nil)
+				}
+			case !confirmed:
+				s.inconclusive("Accept was not observed blocked before the fault; its late return is not judged")
+				res.Abandon = true
+				skipB = true
+			default:
 				if st, gs := stable(time.Second); st {
-					s.viol("receiver-stuck/server.Accept", map[string]interface{}{"goroutines": excerpt(gs)})
-					res.Abandon = true
+					s.viol("receiver-stuck/server.Accept", map[string]interface{}{"goroutines": excerpt(gs),
+						"note": "still inside Accept after the server was closed; only AcceptTimeout would release it"})
 				} else {
 					s.inconclusive("blocked Accept: not stable")
 				}
+				res.Abandon = true
 			}
+		} else if acc != nil {
+			res.Abandon = true
 		}
 		// clean up: B, client; server A gets a second Close (a no-op unless the first one panicked half-way)
 		s.server = b
 		if w.returned() && w.panicked {
 			s.srvCancel() // A's remaining goroutine waits for the context; its Close panicked, so this is not judged
 		}
-		s.stageB()
+		if skipB {
+			_ = cc.Close()
+			_ = b.Close()
+			s.cliCancel()
+			s.srvCancel()
+		} else {
+			s.stageB()
+		}
 		// A's own goroutines end with the context
 		res.Evals = 1
 		res.Sigs = append(res.Sigs, sp.signature())
